@@ -17,7 +17,13 @@
        "the value conforms and is not fragmented" is the hypothesis  x691 ... = XOk bits  (XViolation = outside the
        constraints, XOutside = a length >= 16384); [sup] (Proofs/AperStructDefs.v, decidable, value-directed) keeps the
        value inside the constraint classes on which the library follows X.691; [small] = below 2^40 bits.
-   (7) refusal: see c03_refusal_* below.
+   (7) refusal (C03.2), structural:                                                             [c03_aper_encode_refuses]
+         tags_to_asn1 t p = Some at -> abs t p v = Some av -> supr t p v = true -> x691 at av 0 = XViolation ->
+         asz av + 512 < 2^40 -> exists e, marshal t p v = Err e
+       [supr] (Proofs/AperStructRefDefs.v) = [sup] without its validity parts (an INTEGER may be out of range, a mandatory
+       pointer nil, a string / list of any size, Present = 0 or too large) + octets are octets; [asz] bounds the size of
+       any partial output.  The error arises where the constraint is checked (theorems c03_refusal_...) and propagates through every
+       enclosing SEQUENCE, SEQUENCE OF, CHOICE, open type and pointer; components before the violating one are encoded.
 
    Classes excluded by [sup] (each is a recorded deviation or has no NGAP instance; witnesses below / in AperEncProofs):
      SIZE upper bound >= 65536 (D5), extensible size below the root (D7), lengths >= 16384 (fragmentation),
@@ -27,19 +33,15 @@
      length 0 where X.691 wants one zero octet), OBJECT IDENTIFIER.
 
    TODO-PARTIAL (stated in full, not proved here):
-     aper_encode_refuses :
-       forall t p v at av, tags_to_asn1 t p = Some at -> abs t p v = Some av -> supported t p ->
-         x691 at av 0 = XViolation -> exists e, marshal t p v = Err e
-     What is proved of it is the per-kind refusal c03_refusal_* (INTEGER out of range, string / list of illegal size,
-     Present = 0 or too large, nil mandatory pointer, open type not matching its identifier, fixed BIT STRING of the
-     wrong length) at the primitive / encStruct level; missing is the structural lifting: that an error (rather than
-     a panic or a success) propagates out of every enclosing SEQUENCE / SEQUENCE OF / open type for the components
-     encoded before the violating one (which needs the C03.1 invariant for the preceding components plus totality of
-     the writer on arbitrary values). *)
+     aper_encode_refuses_open_mismatch : c03_aper_encode_refuses for a value whose violation is "open type not matching
+       its identifier" or a negative Present.  [supr] asks the alternative chosen in an open type to be the one registered
+       under the identifier's value (and Present >= 0), so these two kinds are covered where they are checked
+       (c03_refusal_open_type_mismatch, c03_refusal_unset_choice) but not through enclosing values.  Missing: the same
+       propagation argument with the encoder's own identifier lookup (get_ref) in place of the specification's. *)
 From Coq Require Import NArith ZArith List Bool String.
 Require Import GoSlice Bits AperCommon AperEnc AperDec Asn1 X691 Asn1Tags NgapSchema NgapGolden AperCheck X691Check
         AperEncProofs AperSchemaProofs AperBits AperBitsGet AperBitsPut AperStructPrim AperStructStr AperStructBits
-        AperStructDefs AperStructFld AperStructMain AperStructRefuse AperStructWitness.
+        AperStructDefs AperStructFld AperStructMain AperStructRefuse AperStructWitness AperStructSize AperStructRefDefs AperStructRefOk AperStructRefMain.
 Import ListNotations.
 Open Scope N_scope.
 
@@ -205,6 +207,35 @@ Theorem c03_fixed_bitstring_refused :
 Proof. exact fixed_bitstring_wrong_length_refused. Qed.
 Print Assumptions c03_fixed_bitstring_refused.
 
+(* (7) C03.2, structural: a value outside its constraints is refused with an error *)
+Theorem c03_aper_encode_refuses :
+  forall t p v at' av,
+    tags_to_asn1 t p = Some at' -> abs t p v = Some av -> supr t p v = true ->
+    x691 at' av 0 = XViolation -> N.of_nat (asz av + SLACK) < LIM ->
+    exists e, marshal t p v = Err e.
+Proof. exact marshal_refuses. Qed.
+Print Assumptions c03_aper_encode_refuses.
+
+Theorem c03_ngap_encode_refuses :
+  forall name t pe pd v at' av,
+    In (name, t, pe, pd) ngap_roots_full -> tags_to_asn1 t pe = Some at' -> abs t pe v = Some av -> supr t pe v = true ->
+    x691 at' av 0 = XViolation -> N.of_nat (asz av + SLACK) < LIM ->
+    exists e, marshal t pe v = Err e.
+Proof. intros name t pe pd v at' av _. apply marshal_refuses. Qed.
+Print Assumptions c03_ngap_encode_refuses.
+
+(* the relaxed side condition and a valid encoding give the side condition of (6) *)
+Theorem c03_supr_valid_is_sup :
+  forall t p v av at' b pos,
+    tags_to_asn1 t p = Some at' -> abs t p v = Some av -> supr t p v = true -> x691 at' av pos = XOk b -> sup t p v = true.
+Proof. exact supr_ok. Qed.
+Print Assumptions c03_supr_valid_is_sup.
+
+(* the size of an X.691 encoding is bounded by a function of the abstract value alone *)
+Theorem c03_encoding_size_bound : forall v t pos b, x691 t v pos = XOk b -> (List.length b <= asz v)%nat.
+Proof. exact x691_len. Qed.
+Print Assumptions c03_encoding_size_bound.
+
 (* refusal at the place of the violation (C03.2), one statement per kind named by the property *)
 Theorem c03_refusal_integer_out_of_range :
   forall s z ext lb ub, (z < lb)%Z \/ (ext = false /\ (ub < z)%Z) -> exists e, appendInteger s z ext (Some lb) (Some ub) = Err e.
@@ -338,3 +369,16 @@ Example c03_structural_hypotheses_met :
   | _, _ => false
   end = true.
 Proof. split; vm_compute; reflexivity. Qed.
+
+(* the hypotheses of c03_aper_encode_refuses hold for the NGSetupRequest above with a 4-octet PLMNIdentity (SIZE(3)):
+   the model refuses it, and so does the specification over the frozen TS 38.413 types *)
+Definition ex_ngsetup_bad : val := (VStruct [(VInt 1%Z);(VPtr (VStruct [(VStruct [(VInt 21%Z)]);(VStruct [(VEnum 0)]);(VStruct [(VInt 7%Z);VNil;VNil;VNil;VNil;VNil;VNil;(VPtr (VStruct [(VStruct [(VList [(VStruct [(VStruct [(VInt 82%Z)]);(VStruct [(VEnum 2)]);(VStruct [(VInt 2%Z);VNil;(VPtr (VStruct [(VOctets [100;122;108;103;114;49;106;113;101;115;97;103;50;57;119;97;48;122])]));VNil;VNil])]);(VStruct [(VStruct [(VInt 27%Z)]);(VStruct [(VEnum 2)]);(VStruct [(VInt 1%Z);(VPtr (VStruct [(VInt 1%Z);(VPtr (VStruct [(VStruct [(VOctets [142;184;201;7])]);(VStruct [(VInt 1%Z);(VPtr (VBits [246;97;27;106] 32));VNil]);VNil]));VNil;VNil;VNil]));VNil;VNil;VNil])])])])]));VNil;VNil;VNil;VNil;VNil;VNil;VNil;VNil;VNil;VNil;VNil;VNil;VNil;VNil;VNil;VNil;VNil;VNil;VNil;VNil;VNil;VNil;VNil;VNil;VNil;VNil;VNil;VNil;VNil;VNil;VNil;VNil;VNil;VNil;VNil;VNil;VNil;VNil;VNil;VNil;VNil;VNil;VNil;VNil;VNil])]));VNil;VNil]).
+Example c03_refusal_hypotheses_met :
+  supr (root_ty "NGAPPDU") (root_penc "NGAPPDU") ex_ngsetup_bad = true /\
+  match tags_to_asn1 (root_ty "NGAPPDU") (root_penc "NGAPPDU"), abs (root_ty "NGAPPDU") (root_penc "NGAPPDU") ex_ngsetup_bad with
+  | Some at', Some av => match x691 at' av 0 with XViolation => N.of_nat (asz av + SLACK) <? LIM | _ => false end
+  | _, _ => false
+  end = true /\
+  marshal (root_ty "NGAPPDU") (root_penc "NGAPPDU") ex_ngsetup_bad = Err E_OCT_OVER_UB /\
+  ngap_enc_spec_out ("NGAPPDU"%string, ex_ngsetup_bad, EPanic) = SVRefuse.
+Proof. repeat split; vm_compute; reflexivity. Qed.
